@@ -645,14 +645,21 @@ func (r *Round) Clear() {
 // Restart - restart the round
 func (r *Round) Restart() error {
 	r.mutex.Lock()
-	if r.getState() >= Share {
-		r.mutex.Unlock()
-		return CompleteRoundRestartError
+	// SetPhase does not take the mutex: move the phase back with a compare-and-swap
+	// so that a phase that reached Share or Complete meanwhile is never undone.
+	for {
+		state := r.getState()
+		if state >= Share {
+			r.mutex.Unlock()
+			return CompleteRoundRestartError
+		}
+		if atomic.CompareAndSwapInt32((*int32)(&r.phase), int32(state), int32(ShareVRF)) {
+			break
+		}
 	}
 	r.initialize()
 	r.Block = nil
 	r.resetSoftTimeoutCount()
-	r.ResetPhase(ShareVRF)
 
 	r.mutex.Unlock()
 	return nil
@@ -723,8 +730,14 @@ func (r *Round) getState() Phase {
 }
 
 func (r *Round) setPhase(state Phase) {
-	if state > r.getState() {
-		atomic.StoreInt32((*int32)(&r.phase), int32(state))
+	for {
+		cur := r.getState()
+		if state <= cur {
+			return
+		}
+		if atomic.CompareAndSwapInt32((*int32)(&r.phase), int32(cur), int32(state)) {
+			return
+		}
 	}
 }
 
